@@ -2,6 +2,7 @@
 Theorems (Properties_C08.v) + byte-exact correspondence of the header text and of the parsed header
 with the extracted model + the round-trip ORACLE evaluated on gemmi (memory / file / gzip, native / swapped)."""
 import random
+import re
 
 import vlib
 from props import fam_mtz as F
@@ -95,6 +96,7 @@ def run(chk):
     h, d = F.harness(), F.driver()
     n = 250 if quick else 6000
     reps = 1 if quick else 4
+    found = {}
     for rep in range(reps):
         cases = gen_cases(rng, n, quick)
         lines = []
@@ -105,7 +107,7 @@ def run(chk):
             by_line[l] = (cmd, s)
             lines.append(l)
         lines += first_bytes_cases(rng, 200 if quick else 3000)
-        res = vlib.correspond(chk, h, d, lines)
+        res = vlib.correspond(chk, h, d, lines, env=F.SAN_ENV)
         F.clean_scratch()
         for l in res['outputs']:
             p = l.split('\t')
@@ -117,18 +119,30 @@ def run(chk):
                      sample={'cmd': p[0], 'args': p[1][:300], 'impl': p[2][:200]} if chk.evaluations % 499 == 0 else None,
                      bucket=bucket_of(cmd, s, p[2]) if s is not None else p[0])
         for (cmd, args, impl, model) in res['mismatches']:
-            chk.violate('correspondence', 'mtz-model disagrees with gemmi on command ' + cmd,
-                        'input=%s impl=%s model=%s' % (args[:2000], impl[:3000], model[:3000]),
-                        replay={'harness': 'h_mtz', 'line': cmd + '\t' + args}, found_input=False)
+            if impl in ('CRASH', 'TIMEOUT'):
+                continue
+            found.setdefault(('correspondence', cmd), []).append(
+                (len(args), 'mtz-model disagrees with gemmi on command ' + cmd,
+                 'input=%s impl=%s model=%s' % (args[:2000], impl[:3000], model[:3000]), cmd + '\t' + args))
         for (cmd, args, r) in res['oracle_fail']:
             c0, s = by_line.get(cmd + '\t' + args, (cmd, None))
-            if c0 == 'o_crash':
+            if c0 == 'o_crash' or r in ('CRASH', 'TIMEOUT'):
                 continue      # outside the field widths: only memory safety is required
-            chk.violate('oracle', 'C08 round trip fails on gemmi: %s for spec %s' % (r[:120], args[:600]),
-                        'oracle result: ' + r, replay={'harness': 'h_mtz', 'line': cmd + '\t' + args})
+            cls = re.sub(r'[0-9]+', 'N', re.sub(r'\[.*', '', r)).strip()
+            found.setdefault(('oracle', cls), []).append(
+                (len(args), 'C08 round trip fails on gemmi (%s) for spec %s' % (cls, args[:600]),
+                 'oracle result: ' + r, cmd + '\t' + args))
         for (line, kind, err) in res['crashes']:
-            chk.violate('crash', 'h_mtz %s on %s' % (kind, line[:700]), err,
-                        replay={'harness': 'h_mtz', 'line': line})
+            m = re.search(r'SUMMARY: \S+ (\S+) (\S+?)(:\d+)* in (\S+)|(\S+:\d+):\d+: runtime error: ([^;\n]*)', err)
+            cls = kind + ' ' + (m.group(0)[:160] if m else 'no sanitizer summary')
+            cls = re.sub(r'0x[0-9a-f]+', 'ADDR', cls)
+            found.setdefault(('crash', cls), []).append(
+                (len(line), 'h_mtz %s on %s' % (cls, line[:600]), err, line))
+    for (kind, cls), lst in sorted(found.items()):
+        lst.sort()
+        n, key, detail, line = lst[0]
+        chk.violate(kind, key, detail + '\n(%d inputs of this class)' % len(lst),
+                    replay={'harness': 'h_mtz', 'line': line}, found_input=(kind != 'correspondence'))
     chk.rule = ('generated MTZ objects: 1-40 columns of every type, 0-2000 reflections, 1-5 datasets, 0-30 batches '
                 '(aimed at 11/12/13/24/25), labels of length 1..30 (31+ for the header text only), titles up to 70, '
                 'data = arbitrary bit patterns incl. signalling NaNs/inf/denormals, history, appended text. '
